@@ -478,6 +478,11 @@ impl Path {
         (self.exploring, self.skipping)
     }
 
+    /// Number of decisions taken so far in this iteration
+    pub(crate) fn verif_pos(&self) -> usize {
+        self.pos
+    }
+
     /// Copy the decision path out for the verification observer.
     pub(crate) fn verif_snapshot(&self) -> (Vec<crate::rt::verif::Branch>, usize) {
         use crate::rt::verif::{Branch, BranchKind};
